@@ -155,7 +155,8 @@ namespace l2cap {
 
         // only the response to the pending request completes that request
         if ( code == connection_parameter_update_response_code && pending_status_ == transmitted
-          && in_size == connection_parameter_update_response_size && input[ 1 ] == identifier_ )
+          && in_size == connection_parameter_update_response_size && input[ 1 ] == identifier_
+          && input[ 2 ] == connection_parameter_update_response_size - 4 && input[ 3 ] == 0 )
         {
             pending_status_ = idle;
             identifier_ = static_cast< std::uint8_t >( identifier_ + 1 );
